@@ -536,3 +536,17 @@ for _inc in (True, False):
         encodes=["hypnotoad.core.mesh:MeshRegion.geometry1"],
         stubs=["equilibrium psi/Bp_R/Bp_Z/fpol/pressure -> symbolic arrays", "calcPoloidalDistance -> no-op"],
         bounds="nx=1, ny=3 (smallest size geometry1's probe cell indexing admits), all values real"))
+
+# hy is the link between the grid and the metric (g22 = 1/hy^2, J = hy/Bp, ...): the obligations deciding that hy*dy is the arc length are C05's
+def _hy_chain(periodic):
+    def body(env):
+        import harness.c05 as m   # resolved at call time (no import cycle at load time)
+        return m._mk_hy(periodic)(env)
+    return body
+
+
+for _p in (False, True):
+    OBLIGATIONS.append(Ob("hy_is_arc_length_per_dy_%s_chain" % ("periodic" if _p else "open"), _hy_chain(_p), tier="quick", family="calcHy",
+                          encodes=["hypnotoad.core.mesh:MeshRegion.calcHy"],
+                          desc="hy*dy = arc between y-faces (centre) / adjacent centres (ylow, also across region joins): the hy that enters g22, g_22 and J is the grid's own (shared with C05)",
+                          stubs=["contour distances symbolic, strictly increasing"], bounds="2 regions, nx=1, ny=2"))
